@@ -14,7 +14,7 @@ pub struct FaviconController;
 
 impl Controller for FaviconController {
     fn is_matching(request: &Request, _connection: &ConnectionInfo) -> bool {
-        request.method == METHOD.get && request.request_uri == "/favicon.svg"
+        (request.method == METHOD.get || request.method == METHOD.head || request.method == METHOD.options) && request.request_uri == "/favicon.svg"
     }
 
     fn process(_request: &Request, mut response: Response, _connection: &ConnectionInfo) -> Response {
@@ -64,7 +64,7 @@ impl FaviconController {
     pub const FAVICON_FILEPATH: &'static str = "favicon.svg";
 
     pub fn is_matching_request(request: &Request) -> bool {
-        request.method == METHOD.get && request.request_uri == "/favicon.svg"
+        (request.method == METHOD.get || request.method == METHOD.head || request.method == METHOD.options) && request.request_uri == "/favicon.svg"
     }
 
     pub fn process_request(_request: &Request, mut response: Response) -> Response {
